@@ -218,8 +218,13 @@ Definition step_thr (s : msys) (t : tid) (c : nat) : sres msys :=
 
 (* ---------------------------------------------------------------- enforcer steps *)
 
-Definition ent_del (g : N) (l : list ent) : list ent :=
-  filter (fun e => negb (m_tag (snd e) =? g)) l.
+(** Unlinks the list element of the message with address [g] (m.el), if it is still linked. *)
+Fixpoint ent_take (g : N) (l : list ent) : option (ent * list ent) :=
+  match l with
+  | [] => None
+  | k :: l' => if m_tag (snd k) =? g then Some (k, l')
+               else match ent_take g l' with Some (x, r) => Some (x, k :: r) | None => None end
+  end.
 Definition esize (k : ent) : Z := Z.of_N (m_size (snd k)).
 
 Definition after_evict (max : Z) (w : tid) (e : enf) : enf :=
@@ -261,8 +266,16 @@ Definition step_enf (s : msys) : sres msys :=
         end
     | ERemove k w =>
         if tag_mem (m_tag (snd k)) (e_els e)
-        then SOk (with_enf s (finish_enf w
-                   (mkEnf (e_pc e) (ent_del (m_tag (snd k)) (e_all e)) (e_cur e - esize k)%Z (e_els e) (e_rem e) (e_done e))))
+        then
+          (* all.Remove(m.el): the element's value is this very message; its size leaves curSize *)
+          match ent_take (m_tag (snd k)) (e_all e) with
+          | Some (k', rest) =>
+              SOk (with_enf s (finish_enf w
+                   (mkEnf (e_pc e) rest (e_cur e - esize k')%Z (e_els e) (e_rem e) (e_done e))))
+          | None =>                              (* element no longer linked: Remove is a no-op *)
+              SOk (with_enf s (finish_enf w
+                   (mkEnf (e_pc e) (e_all e) (e_cur e - esize k)%Z (e_els e) (e_rem e) (e_done e))))
+          end
         else SOk (with_enf s (finish_enf w
                    (mkEnf (e_pc e) (e_all e) (e_cur e) (e_els e) (m_tag (snd k) :: e_rem e) (e_done e))))
     end
